@@ -37,6 +37,12 @@ theorem C04_chains_of_close_levels (h : p.AcceptedCore) (h2 : (2 : K) ≠ 0) (k 
     trS (p.sr "H_tilde" ^ k) = trS (p.sr "H" ^ k) :=
   C04_power_traces h.accepted h2 k
 
+/-- **C04** for every well-formed input with the list form (or the absence) of `fully_diagonalize`, and for masks of the caller that pass the two checks -/
+theorem C04_every_list_form_problem (h : p.InputOK) (h2 : (2 : K) ≠ 0) (k : ℕ) : trS (p.sr "H_tilde" ^ k) = trS (p.sr "H" ^ k) :=
+  C04_power_traces h.accepted h2 k
+theorem C04_every_masked_problem (h : p.MasksOK) (h2 : (2 : K) ≠ 0) (k : ℕ) : trS (p.sr "H_tilde" ^ k) = trS (p.sr "H" ^ k) :=
+  C04_power_traces h.accepted h2 k
+
 /-- **C04** the characteristic polynomials of `H̃` and `H(λ)` coincide, coefficient by coefficient and order by order -/
 theorem C04_characteristic_polynomial (h : p.Accepted) (h2 : (2 : K) ≠ 0) :
     (toMatS (p.sr "H_tilde")).charpoly = (toMatS (p.sr "H")).charpoly :=
